@@ -9,6 +9,7 @@ import ast
 from . import model as P
 
 U = ast.unparse
+REL = "relative tolerance measured against positions"
 FILES = ("curve", "jordancurve", "shape")     # polygon.py holds the primitives themselves
 UNK = ("other", None)
 
@@ -38,6 +39,17 @@ class WeightEngine:
             for q, fn in self.M.funcs.items():
                 if fn.mod in FILES:
                     W(self, q).run()
+                elif fn.mod == "polygon":
+                    # the primitives work on positions by design; only a tolerance that is *relative to* positions is
+                    # looked for there
+                    nf, ns = len(self.findings), self.sites
+                    try:
+                        W(self, q).run()
+                    except Exception:
+                        pass
+                    kept = [f for f in self.findings[nf:] if f[2] == REL]
+                    self.findings[nf:] = kept
+                    self.sites = ns + len(kept)
             new = {}
             for (q, pname), ws in self.callsites.items():
                 ws = set(ws)
@@ -216,6 +228,19 @@ class W:
                         s.eng.sites += 1
                         s.eng.findings.append((s.q, e.lineno, "dot product of two positions", U(e)[:70]))
                     return ("num", None)
+                if U(f) in ("math.isclose", "np.isclose", "np.allclose") and len(args) >= 2:
+                    # |a - b| <= max(rel_tol * max(|a|, |b|), abs_tol): the relative part is measured against the
+                    # operands themselves; for two positions it grows with the distance from the origin
+                    rel = next((k.value for k in e.keywords if k.arg in ("rel_tol", "rtol")), None)
+                    if rel is None and len(e.args) > 2 and U(f) != "math.isclose": rel = e.args[2]
+                    zero = isinstance(rel, ast.Constant) and rel.value == 0
+                    def w1(v):
+                        return v[0] in ("pt", "num") and v[1] == 1 or (v[0] == "seq" and isinstance(v[1], tuple) and v[1][0] in ("pt", "num") and v[1][1] == 1)
+                    if s.final:
+                        s.eng.sites += 1
+                        if not zero and (w1(args[0]) or w1(args[1])):
+                            s.eng.findings.append((s.q, e.lineno, REL, U(e)[:70]))
+                    return UNK
                 if U(f) == "np.arctan2":
                     for a in args: s.check(e, "arctan2 of a position coordinate", a)
                     return ("num", 0)
